@@ -2,7 +2,7 @@
 import z3
 from sx.engine import E, SBool, SStr, SNum, Z, Inconclusive, Unsupported
 from sx.world import (SymWorld, inv_db_clauses, slot_unchanged, slot_same_content, new_rows, count,
-                      CHANNEL_TABLES, PROPERTY_CLAUSES, SUPPORT_CLAUSES)
+                      CHANNEL_TABLES, PROPERTY_CLAUSES, SUPPORT_CLAUSES, CRASH_CLAUSES)
 from sx.run import PathResult
 
 T, F = z3.BoolVal(True), z3.BoolVal(False)
@@ -36,7 +36,8 @@ OTHER_SHAPES = ["none", "sub0s0", "sub0s1", "sub1s0"]
 
 
 def build(e, K=2, S=2, M=1, crowd=0, usage=False, allow_list=True, blur=None,
-          acting=None, others=None, nameplate="sym", kf_d6=True, share=None, fresh_bundles=(), ghosts=()):
+          acting=None, others=None, nameplate="sym", kf_d6=True, share=None, fresh_bundles=(), ghosts=(),
+          relaxed=False):
     """world + bundles + cast (in-memory state produced by the real handlers) + loaded pre-state.
     share: the Ctx of the first run of a two-run product: same bundle terms (except the indices in
     fresh_bundles, which get independent new bundles), same cast shapes, same environment draws.
@@ -56,7 +57,7 @@ def build(e, K=2, S=2, M=1, crowd=0, usage=False, allow_list=True, blur=None,
         return x.syms[name]
     if share is None:
         for k in range(K):
-            w.make_bundle(S_=S, M=M, crowd=(crowd if k == 0 else 0), nameplate=nameplate)
+            w.make_bundle(S_=S, M=M, crowd=(crowd if k == 0 else 0), nameplate=nameplate, relaxed=relaxed)
     else:
         for k, b in enumerate(share.w.bundles):
             if k in fresh_bundles:
@@ -452,6 +453,7 @@ def nameplate_summary(rows, when, pruned, blur):
 def mailbox_summary(rows, when, pruned, blur):
     """rows: [(present, added, mood_null, mood)]"""
     n, t0, t1 = two_smallest([(p, a) for p, a, _, _ in rows])
+    t0 = z3.If(n == 0, when, t0)       # a mailbox without any side row (crash state) starts when it is retired
     def any_mood(m):
         return Or(*[And(p, z3.Not(mn), mv == S_(m)) for p, _, mn, mv in rows])
     base = z3.If(n == 0, S_("quiet"), z3.If(n == 1, S_("lonely"), S_("happy")))
